@@ -606,7 +606,7 @@ var panicTable = map[string]string{
 }
 
 var mustTable = map[string]string{
-	"interp.interp.setSpecial:regexp.MustCompile": "only in the branch RuneCountInString(RS)==1 with len(RS)>1, i.e. RS is the valid UTF-8 encoding of one rune; QuoteMeta of a valid rune is a valid pattern (checked: the call is dominated by that comparison)",
+	"interp.interp.setSpecial:regexp.MustCompile":              "only in the branch RuneCountInString(RS)==1 with len(RS)>1, i.e. RS is the valid UTF-8 encoding of one rune; QuoteMeta of a valid rune is a valid pattern (checked: the call is dominated by that comparison)",
 	"internal/compiler.compiler.regexIndex:regexp.MustCompile": "the same string was compiled successfully by regexp.Compile in parser.nextRegex (with the same AddRegexFlags wrapper) before the RegExpr node was built",
 }
 
@@ -1067,7 +1067,6 @@ func rulePanic(c *Ctx) {
 		c.undecided("anchor:showSourceLine", token.NoPos, "goawk.go showSourceLine not found")
 	}
 }
-
 
 // dominatedByOneRune: the instruction is reached only through the true edge of `RuneCountInString(x) == 1`.
 func dominatedByOneRune(in ssa.Instruction) bool {
